@@ -293,7 +293,7 @@ class Gen:
         if x < 0.9:
             return r.choice(["\n", "\t", "  ", "\n  ", " \n"])
         if self.comments_ok and after in ("(", ",", "=", None) and before not in (",", ")", ";"):
-            return r.choice(["/* c */", "/**/", "/* ( */", "/* , */", " /* #9=X(); */ "])
+            return r.choice(["/* c */", "/**/", "/* ( */", "/* , */"])
         return " "
 
     def render(self, insts, schema="VERIF_ALL", shuffle=True, header=None, comments_in_records=True):
